@@ -423,6 +423,45 @@ def passthrough_case(rec, rng):
         shutil.rmtree(root, ignore_errors=True)
 
 
+def symlink_case(rec, rng, fmt):
+    """Population class: the name given to compress / decompress is a symbolic link whose destination is
+    spelled differently (latest.nc.<fmt> -> store/0001; plain.bin -> store/legacy.<fmt>). The name the
+    caller gives decides about the format."""
+    import typhon.files.utils as U
+    root = scratch_dir("c12s")
+    try:
+        os.makedirs(root + "/store")
+        os.makedirs(root + "/t")
+        content = content_bytes(rng.choice(CONTENTS[:4]), rng.randrange(10 ** 6))
+        for link, dest, as_fmt in (("t/latest.nc." + fmt, "store/0001", fmt),
+                                   ("t/plain.bin", "store/legacy." + fmt, None)):
+            lp, dp = os.path.join(root, link), os.path.join(root, dest)
+            open(dp, "wb").close()
+            os.symlink(dp, lp)
+            case = {"kind": "symlink", "fmt": fmt, "link": link, "dest": dest}
+            rec.ev()
+            rec.count("symlink.cases")
+            try:
+                with U.compress(lp) as tf:
+                    with open(tf, "wb") as fh:
+                        fh.write(content)
+                with U.decompress(lp) as tf:
+                    with open(tf, "rb") as fh:
+                        back = fh.read()
+                stored = stdlib_read(lp, as_fmt) if as_fmt else open(lp, "rb").read()
+            except Exception as exc:
+                rec.violation("roundtrip", case, {"exception": repr(exc), "why": "name is a symbolic link"})
+                continue
+            if back != content or stored != content:
+                rec.violation("roundtrip", case, {"why": "name is a symbolic link",
+                                                  "read_back_equal": back == content,
+                                                  "stored_as_named_format": stored == content})
+                continue
+            rec.nontriv(["symlink", fmt, bool(as_fmt)], [fmt, link])
+    finally:
+        shutil.rmtree(root, ignore_errors=True)
+
+
 def corrupt_cases(rec, rng, fmt, n):
     import typhon.files.utils as U
     root = scratch_dir("c12c")
@@ -648,6 +687,7 @@ def run_shard(spec, rec):
         run_scenario(rec, sc, None)
         run_scenario(rec, sc, ["body", "after"])
     passthrough_case(rec, rng)
+    symlink_case(rec, rng_for(spec["seed"], "c12-symlink", spec["shard"]), fmt)
     corrupt_cases(rec, rng, fmt, 6 if spec["n"] <= 3 else 40)
     for _ in range(1 if spec["n"] <= 3 else 10):
         concurrent_case(rec, rng, fmt)
@@ -661,6 +701,8 @@ def replay(case, rec):
         nested_case(rec, rng_for(0, "r"), case["fmt"])
     elif case.get("kind") == "concurrent":
         concurrent_case(rec, rng_for(0, "r"), case["fmt"])
+    elif case.get("kind") == "symlink":
+        symlink_case(rec, rng_for(0, "r"), case["fmt"])
     elif case.get("kind") == "corrupt":
         corrupt_cases(rec, rng_for(0, "r"), case["fmt"], 10)
     else:
